@@ -2,6 +2,9 @@
 
 SPEC = dict(
     harness=['h_pid.c'],
+    # the default (double) build runs the full harness; the other two real widths run the compact type-generic companion h_pid_w.c
+    configs=lambda tier: [dict(name='f64'), dict(name='f32', real=4, harness=['h_pid_w.c']), dict(name='f80', real=16, harness=['h_pid_w.c'])],
+    parallel_configs=3,
     level='exploration',
     rule='every case is one history of 1..2000 (set-point, feedback) pairs fed to the real controller code with random switches between '
          'the run/pos/inc entry points, a_*_zero calls in mid-history (after which a freshly initialised twin controller is run alongside '
@@ -24,7 +27,13 @@ SPEC = dict(
          'the step: out=outmax, out=outmin, sum>=summax, sum<=summin) combinations in which at least one step was judged - NOT the number of '
          'steps (evaluations).',
     exhaustive={'quick': None, 'thorough': None},
-    require=['neuro-all-weights-zero-histories', 'out-within-limits', 'state-finite', 'return-eq-out-field', 'limits-untouched', 'gains-untouched', 'cached-fields-bitwise',
+    require=['w-out-within-limits', 'w-state-finite', 'w-return-eq-out-field', 'w-limits-untouched', 'w-gains-untouched', 'w-cached-fields-bitwise', 'w-integrator-clamp-clauses',
+             'w-equation-exact', 'w-equation-onestep', 'w-pos-eq-inc-while-no-limit-active', 'w-closed-form-while-no-limit-active', 'w-seen-first-limit-activation-in-pos-inc-pair',
+             'w-init-on-garbage', 'w-zero-state-fields', 'w-zero-mid-history', 'w-fuzzy-scratch-layout', 'w-fuzzy-configuration-untouched', 'w-fuzzy-table-lookup-gains-exact',
+             'w-fuzzy-gains-weighted-mean', 'w-fuzzy-threshold-lone-set', 'w-seen-fuzzy-no-set-fires', 'w-neuro-configuration-untouched-ec-bitwise', 'w-neuro-run-passes-setpoint-keeps-weights',
+             'w-neuro-weight-update-onestep', 'w-neuro-output-onestep', 'w-neuro-zero-keeps-weights-clears-ec', 'w-neuro-zero-twin-bitwise', 'w-seen-output-at-a-limit',
+             'w-seen-integrator-at-or-beyond-a-clamp', 'w-seen-integration-suspended', 'w-seen-output-clamped',
+             'neuro-all-weights-zero-histories', 'out-within-limits', 'state-finite', 'return-eq-out-field', 'limits-untouched', 'gains-untouched', 'cached-fields-bitwise',
              'sum-untouched-by-run-inc', 'integrator-not-further-beyond-clamp', 'integrator-overshoot-le-one-increment',
              'integrator-step-eq-one-increment', 'equation-exact-sum', 'equation-exact-out', 'equation-onestep-sum', 'equation-onestep-out',
              'pos-eq-inc-while-no-limit-active', 'closed-form-while-no-limit-active', 'seen-first-limit-activation-in-pos-inc-pair',
@@ -36,14 +45,26 @@ SPEC = dict(
              'seen-integrator-at-or-beyond-summin', 'seen-integration-suspended', 'seen-integrator-pulled-back-from-clamp'],
     cov_files=['pid.c', 'pid_fuzzy.c', 'pid_neuro.c'],
     cov_cases=400, cov_funcs=r'^a_pid_',
-    workers={'quick': 8, 'thorough': 16},
+    workers={'quick': 24, 'thorough': 48},  # three configurations run side by side: 8 / 16 workers each (the two companions finish within seconds)
     timeout={'quick': 900, 'thorough': 7200},
     assumptions=[
         'only executions produced by this run are judged (runtime monitoring, not proof)',
         'gcc 12 / x86-64 LP64 little-endian, A_SIZE_POINTER=8; library rebuilt from /repo working tree with -fsanitize=address,undefined',
-        'a_real = double (A_SIZE_REAL=8), SSE2 arithmetic, -ffp-contract=off: the exact regime relies on IEEE-754 binary64 operations being '
+        'full harness (config f64): a_real = double (A_SIZE_REAL=8), SSE2 arithmetic, -ffp-contract=off: the exact regime relies on IEEE-754 binary64 operations being '
         'exact whenever the result is representable; == is used instead of a bit comparison so that the sign of a zero (which the equations '
         'do not determine) is not judged',
+        'float and long double builds (configs f32: A_SIZE_REAL=4, SSE single; f80: A_SIZE_REAL=16, x87 extended) run the compact type-generic companion h_pid_w.c: '
+        'histories of 1..96 steps with run/pos/inc switches, zero and re-tuning in mid-history; integer inputs with gains k/16 (every partial sum a multiple of 2^-4 below 2^20, '
+        'exact in any type with >= 24 bits) compared with == against a __float128 running reference (plain PID, pos == inc == closed form while no limit is active, and the fuzzy '
+        'controller on integer-centred triangles where exactly one rule fires with weight 1, i.e. gains == base + consequent[e set][ec set]); half of the plain-PID histories are scaled as a '
+        'whole (inputs and finite limits) by 2^-60, 2^-30, 2^-12, 2^30 or 2^40, which keeps them exact and exposes absolute thresholds tuned for one width; inputs that use the full mantissa of the '
+        'working type judged by the one-step __float128 oracle within 16*eps*sum|terms| with eps = A_REAL_EPSILON of the working type (plain PID, neuron weights and output, fuzzy on a '
+        'quarter grid with the weighted-mean gain clause of C13); range, finiteness, cached-field and integrator-clamp clauses on every step; every struct a garbage-filled exact-size '
+        'malloc block before init, every table and the scratch buffer an exact-size malloc block (A_PID_FUZZY_BFUZZ restated with sizeof(a_real), idx/val regions inside it and disjoint); '
+        'even scratch orders only in long double, where odd orders misalign the value area (observed, outside the property text)',
+        'companion only, anchored at the implementation (pid_fuzzy.c a_pid_fuzzy_mf, the convention the C13 reference uses as well): a set fires iff its degree exceeds A_REAL_EPSILON of the '
+        'WORKING type; judged on a lone set with degree in [4 eps, 64 eps] (must fire: gain = base + consequent, which the pure equations demand too) and in (0, eps/4] (must not fire: gain == base); '
+        'the band in between is not judged',
         'the "documented difference equations" are read as: pid.h positional/incremental forms with the derivative taken on the measurement '
         '(fdb(k-1)-fdb(k), the form the property anchors and the source comment name; it equals e(k)-e(k-1) while the set-point is constant) '
         'and the anti-windup rule "integration is suspended iff the integrator has reached or passed summax/summin and the error does not '
@@ -71,7 +92,8 @@ SPEC = dict(
                'operator x order combinations are enumerated.',
     level_note='trusted: libquadmath/gcc __float128 arithmetic and the harness reference recurrences; histories are at most 2000 steps; '
                'fuzzy gain values in the real regime are judged by C13, not here; overruns that stay inside the scratch allocation are visible '
-               'only through a wrong gain; float build (A_SIZE_REAL=4) and the C++ wrappers are not executed',
+               'only through a wrong gain; the float and long double builds (A_SIZE_REAL=4 / 16) execute the compact companion h_pid_w.c only (histories <= 96 steps, triangular membership tables, '
+               'neuron judged by the one-step oracle), not the full history/table/operator plan of h_pid.c; the C++ wrappers are not executed',
     technique='exact-arithmetic reference recurrence (bitwise) + one-step binary128 oracle + range/clamp monitors + zero-vs-fresh twin '
               'controllers, exact-size scratch buffer under ASan+UBSan',
 )
